@@ -1,8 +1,31 @@
-"""C07 — region operations are exact set algebra."""
+"""C07 — region queries, translation and bitmap import agree with the point-set model."""
 from checks import regioncommon as rc
 
 REQUIRED = [
     "Pixman.Props.C07.init_not_mem",
+    "Pixman.Props.C07.findBoxForYIdx_first",
+    "Pixman.Props.C07.findBoxForYIdx_eq",
+    "Pixman.Props.C07.findBoxForYIdx_canon",
+    "Pixman.Props.C07.containsPoint_some",
+    "Pixman.Props.C07.containsPoint_none",
+    "Pixman.Props.C07.containsPoint_isSome",
+    "Pixman.Props.C07.containsRectangle_inn",
+    "Pixman.Props.C07.containsRectangle_out",
+    "Pixman.Props.C07.containsRectangle_part",
+    "Pixman.Props.C07.notEmpty_iff",
+    "Pixman.Props.C07.numRects_zero_iff",
+    "Pixman.Props.C07.wrapS_id",
+    "Pixman.Props.C07.translate_mem_fast",
+    "Pixman.Props.C07.translate_fast_rects",
+    "Pixman.Props.C07.translate_mem_out",
+    "Pixman.Props.C07.translate_mem_small",
+    "Pixman.Props.C07.translate_mem_partial",
+    "Pixman.Props.C07.translate_canon_fast",
+    "Pixman.Props.C07.translate_canon_small",
+    "Pixman.Props.C07.translate_canon_partial",
+    "Pixman.Props.C07.rowRuns_spec",
+    "Pixman.Props.C07.initFromImage_mem",
+    "Pixman.Props.C07.initFromImage_canon",
 ]
 
 
